@@ -4,24 +4,22 @@ From QV Require Import Base Fields SrcFacts Msg Decoder WireSpec DecoderSafety D
 From Coq Require Import ZifyBool ZifyNat ZifyN.
 Local Open Scope N_scope.
 
-(* enumeration of [0, n) built in N (the nat-based [upto] is quadratic in vm_compute for n = 65536) *)
-Definition uptoN (n : N) : list N := snd (N.iter n (fun p => (fst p + 1, fst p :: snd p)) (0, [])).
-Lemma uptoN_spec n : fst (N.iter n (fun p => (fst p + 1, fst p :: snd p)) (0, [])) = n /\
-  forall x, x < n -> In x (snd (N.iter n (fun p : N * list N => (fst p + 1, fst p :: snd p)) (0, []))).
-Proof.
-  induction n as [|n IH] using N.peano_ind; [split; [reflexivity|intros; lia]|].
-  rewrite N.iter_succ. destruct IH as [A B]. cbn [fst snd]. rewrite A. split; [lia|].
-  intros x Hx. destruct (N.eq_dec x n) as [->|Hne]; [left; reflexivity|right; apply B; lia].
-Qed.
-Lemma In_uptoN n x : x < n -> In x (uptoN n).
-Proof. apply uptoN_spec. Qed.
-
-Lemma top_sweep : forallb (fun c => Bool.eqb (negb (N.land c 32768 =? 0)) (32768 <=? c)) (uptoN 65536) = true.
-Proof. vm_compute. reflexivity. Qed.
+(* the top bit of a 16-bit word, arithmetically (no 65536-case sweep: coqchk re-checks vm_compute proofs slowly) *)
 Lemma top_bit_land c : c < 65536 -> negb (N.land c 32768 =? 0) = top_bit c.
 Proof.
-  intro H. pose proof (proj1 (forallb_forall _ _) top_sweep c (In_uptoN 65536 c H)) as S.
-  apply eqb_prop in S. exact S.
+  intro H. unfold top_bit. change 32768 with (2 ^ 15).
+  destruct (N.testbit c 15) eqn:T.
+  - assert (L : N.land c (2 ^ 15) <> 0).
+    { intro E. assert (X : N.testbit (N.land c (2 ^ 15)) 15 = true) by (rewrite N.land_spec, T, N.pow2_bits_true; reflexivity).
+      rewrite E in X. rewrite N.bits_0 in X. discriminate. }
+    apply N.testbit_true in T. change (2 ^ 15) with 32768 in *.
+    replace (N.land c 32768 =? 0) with false by (symmetry; apply N.eqb_neq; exact L). cbn [negb].
+    symmetry. apply N.leb_le. lia.
+  - assert (L : N.land c (2 ^ 15) = 0).
+    { apply N.bits_inj_0. intro n. rewrite N.land_spec. destruct (N.eq_dec n 15) as [->|Hn]; [rewrite T; reflexivity|].
+      rewrite N.pow2_bits_false by congruence. apply andb_false_r. }
+    rewrite L. cbn [N.eqb negb]. apply N.testbit_false in T. change (2 ^ 15) with 32768 in *.
+    symmetry. apply N.leb_gt. lia.
 Qed.
 
 Section Complete.
